@@ -189,4 +189,13 @@ PROPS["C16"] = {
     "assumptions": TRUSTED + ["polynomial identities are tested at random points (a non-zero rational function vanishes at a random point with probability ~2^-240)"],
 }
 
+PROPS["C14"] = {
+    "level": "exploration",
+    "technique": "runtime differential monitor: real validate_public_input vs the statement's predicate over arbitrary-precision integers (three-valued), and real verify_public_input vs an address-based Pedersen-chain oracle, on boundary-value and address-perturbation edits of each layout's honest public input",
+    "rule": "per layout of the build: validation edits = step-count exponents around 79/80, range-check bounds around 0 / 0xffff, every other layout's code, segment count +-1, for every builtin the stop pointer at 0 / max / max+1 instances, +-1 cell, below the start, 2^64 instances, wrap-around start, one instance on a trace shorter than the row ratio, trace sizes 2^0..2^24 (2^30 thorough) with and without the step count following; hash edits = every main-page cell's address +1/-1/+0x1000, removal, duplication, neighbour and random swaps (<=64 cells sampled in quick), truncations, program/execution/output bounds +-1, +7, +2^40; rule for hashes: a real Ok(pair) must equal the address-based chains and those must be computable; every edit is a distinct non-trivial case",
+    "legs": [full("pubinput", "pubinput", q=FULL_SHIPPED, t=FULL_SHIPPED)],
+    "required_counters": ["validate.expected_Accept.accepted", "validate.expected_Reject.rejected", "verify.hashes_equal_address_based_oracle", "verify.oracle_fails.rejected"],
+    "assumptions": TRUSTED + ["dynamic layout: the autogenerated dynamic-parameter assertions are not part of the statement (don't-care once the listed conjuncts hold)", "an address listed twice with different values is left to the AIR's memory argument: either value is accepted by the hash oracle"],
+}
+
 NOT_APPLICABLE = {}
